@@ -195,6 +195,21 @@ def edge_coverage(A, g):
             nest = [p for p in _parents(n) if isinstance(p, ast.For)]
             inner = next((lp for lp in nest if 'input_tasks' in src(lp.iter)), None)
             outer = next((lp for lp in nest if 'self.tasks' in src(lp.iter) and 'input_tasks' not in src(lp.iter)), None)
+            if inner is None and outer is not None:
+                # the inputs were collected into a local list first: [(inp, task) for inp in task.input_tasks.values() if isinstance(inp, Task)]
+                for lp in nest:
+                    comp = subst_single_assign(A, g, lp.iter) if isinstance(lp.iter, ast.Name) else None
+                    if isinstance(comp, (ast.ListComp, ast.GeneratorExp)) and len(comp.generators) == 1 and 'input_tasks' in src(comp.generators[0].iter):
+                        gvars = [x.id for x in ast.walk(comp.generators[0].target) if isinstance(x, ast.Name)]
+                        only_task_filter = all(isinstance(c_, ast.Call) and src(c_.func) == 'isinstance' and len(c_.args) == 2 and src(c_.args[0]) in gvars and src(c_.args[1]) == 'Task' for c_ in comp.generators[0].ifs)
+                        if only_task_filter and loop_runs_to_end(lp) and loop_runs_to_end(outer) and loop_unconditional(cfg, lp, n):
+                            found.append((True, ''))
+                        else:
+                            found.append((False, 'an input can be skipped for another reason than not being a Task'))
+                        inner = 'handled'
+                        break
+                if inner == 'handled':
+                    continue
             if inner is None or outer is None:
                 found.append((False, 'add_edge is not inside a loop over the tasks and a loop over their input_tasks'))
                 continue
@@ -228,6 +243,68 @@ def edge_coverage(A, g):
         return True, 'undecided'
     bad = [w for o, w in found if not o]
     return (not bad), (bad[0] if bad else '')
+
+
+def check_resolver_call(A, R: Report, rid: str):
+    """The name Chain._process_dependencies hands to the resolver is `<own namespace>::name` (or already prefixed), and the
+    resolver is told not to guess namespaces."""
+    fpd = A.func('Chain._process_dependencies')
+    resolver_calls = [n for n in A.typer.own_nodes(fpd) if isinstance(n, ast.Call) and isinstance(n.func, ast.Name) and n.func.id == '_find_task_full_name']
+    R.require(resolver_calls, 'anchor: _find_task_full_name call not found in _process_dependencies')
+    fres = A.func('_find_task_full_name')
+    stop_old = A.sym.stop_at
+    A.sym.stop_at = {fi.qualname for fi in A.prog.functions.values() if fi.name in ('slugname', 'get_config', '_expand_tasks')}
+    try:
+        at = A.sym.terms_at(fpd, None, [c.args[0] for c in resolver_calls if c.args])
+    finally:
+        A.sym.stop_at = stop_old
+    for c in resolver_calls:
+        ba = bound_args(c, fres, skip_self=False) or {}
+        dn = ba.get('determine_namespace')
+        exact = isinstance(dn, ast.Constant) and dn.value is False
+        terms = at.get(id(c.args[0]), []) if c.args else []
+        if not terms:
+            R.undecided(rid, 'Chain._process_dependencies: resolver call', 'the name handed to the resolver could not be evaluated symbolically', where=where(fpd, c))
+            continue
+        verdicts = []
+        for t in terms:
+            nss = {x[1][0] for x in dag_nodes(t) if x[0] == 'cat' and len(x[1]) >= 2 and x[1][1] == ('lit', '::') and x[1][0][0] == 'attr' and x[1][0][2] == 'namespace'}
+            if len(nss) != 1:
+                verdicts.append((False, t))
+                continue
+            ns = next(iter(nss))
+
+            def decide(c_, ns=ns):
+                if c_ == ns:
+                    return True
+                if c_[0] == 'cmp' and c_[1] == 'Is' and c_[2][0] == 'call' and c_[2][1] == 'type' and c_[3] in (('global', 'str'), ('builtin', 'str')):
+                    return True
+                return None
+
+            def qualified(r, ns=ns):
+                # <ns>::<name>, or <name> itself where it already starts with <ns>::
+                if r[0] == 'cat' and len(r[1]) == 3 and r[1][0] == ns and r[1][1] == ('lit', '::'):
+                    return True
+                if r[0] == 'cond':
+                    test, neg = r[1], False
+                    if test[0] == 'not':
+                        test, neg = test[1], True
+                    if test[0] == 'method' and test[2] == 'startswith' and test[3] == (('cat', (ns, ('lit', '::'))),):
+                        yes, no = (r[3], r[2]) if neg else (r[2], r[3])
+                        return (yes == test[1] or qualified(yes)) and qualified(no)
+                    return qualified(r[2]) and qualified(r[3])
+                return False
+
+            verdicts.append((qualified(assume(t, decide)), t))
+        bad = [t for ok_, t in verdicts if not ok_]
+        if bad and any(has_opaque(t) for t in bad):
+            R.undecided(rid, 'Chain._process_dependencies: resolver call', 'the name handed to the resolver involves a construct the term engine does not interpret', where=where(fpd, c))
+            continue
+        R.check(exact and not bad, rid, 'Chain._process_dependencies: resolver call', key_of('ns-exact', exact, not bad),
+                'qualified with the own namespace, determine_namespace=False',
+                'a declared input can be resolved without the declaring config\'s namespace (or with namespace guessing): it may bind a same-named task of another namespace',
+                witness=[pretty(bad[0])[:300]] if bad else [pretty(terms[0])[:200]], where=where(fpd, c))
+
 
 
 def run(A, R: Report, thorough: bool):
@@ -307,59 +384,7 @@ def run(A, R: Report, thorough: bool):
                 'a missing *required* input can be skipped silently: the chain is built with a dangling declaration', witness=cfg.describe_path(p) if p else None, where=where(fpd, h.ast))
 
     R.rule('R08.6', 'the name handed to the resolver is qualified with the declaring config\'s namespace whenever it has one, and resolution is namespace-exact', floor=1)
-    fres = A.func('_find_task_full_name')
-    stop_old = A.sym.stop_at
-    A.sym.stop_at = {fi.qualname for fi in A.prog.functions.values() if fi.name in ('slugname', 'get_config', '_expand_tasks')}
-    try:
-        at = A.sym.terms_at(fpd, None, [c.args[0] for c in resolver_calls if c.args])
-    finally:
-        A.sym.stop_at = stop_old
-    for c in resolver_calls:
-        ba = bound_args(c, fres, skip_self=False) or {}
-        dn = ba.get('determine_namespace')
-        exact = isinstance(dn, ast.Constant) and dn.value is False
-        terms = at.get(id(c.args[0]), []) if c.args else []
-        if not terms:
-            R.undecided('R08.6', 'Chain._process_dependencies: resolver call', 'the name handed to the resolver could not be evaluated symbolically', where=where(fpd, c))
-            continue
-        verdicts = []
-        for t in terms:
-            nss = {x[1][0] for x in dag_nodes(t) if x[0] == 'cat' and len(x[1]) >= 2 and x[1][1] == ('lit', '::') and x[1][0][0] == 'attr' and x[1][0][2] == 'namespace'}
-            if len(nss) != 1:
-                verdicts.append((False, t))
-                continue
-            ns = next(iter(nss))
-
-            def decide(c_, ns=ns):
-                if c_ == ns:
-                    return True
-                if c_[0] == 'cmp' and c_[1] == 'Is' and c_[2][0] == 'call' and c_[2][1] == 'type' and c_[3] in (('global', 'str'), ('builtin', 'str')):
-                    return True
-                return None
-
-            def qualified(r, ns=ns):
-                # <ns>::<name>, or <name> itself where it already starts with <ns>::
-                if r[0] == 'cat' and len(r[1]) == 3 and r[1][0] == ns and r[1][1] == ('lit', '::'):
-                    return True
-                if r[0] == 'cond':
-                    test, neg = r[1], False
-                    if test[0] == 'not':
-                        test, neg = test[1], True
-                    if test[0] == 'method' and test[2] == 'startswith' and test[3] == (('cat', (ns, ('lit', '::'))),):
-                        yes, no = (r[3], r[2]) if neg else (r[2], r[3])
-                        return (yes == test[1] or qualified(yes)) and qualified(no)
-                    return qualified(r[2]) and qualified(r[3])
-                return False
-
-            verdicts.append((qualified(assume(t, decide)), t))
-        bad = [t for ok_, t in verdicts if not ok_]
-        if bad and any(has_opaque(t) for t in bad):
-            R.undecided('R08.6', 'Chain._process_dependencies: resolver call', 'the name handed to the resolver involves a construct the term engine does not interpret', where=where(fpd, c))
-            continue
-        R.check(exact and not bad, 'R08.6', 'Chain._process_dependencies: resolver call', key_of('ns-exact', exact, not bad),
-                'qualified with the own namespace, determine_namespace=False',
-                'a declared input can be resolved without the declaring config\'s namespace (or with namespace guessing): it may bind a same-named task of another namespace',
-                witness=[pretty(bad[0])[:300]] if bad else [pretty(terms[0])[:200]], where=where(fpd, c))
+    check_resolver_call(A, R, 'R08.6')
 
     # ---- R08.3
     R.rule('R08.3', 'exclusions are collected before any registration; only abstract and excluded classes are skipped; single-~ patterns match the own namespace segment-wise with fullmatch', floor=3)
